@@ -95,7 +95,7 @@ pub unsafe extern "C" fn sim_bpf_map_lookup_elem(map: *mut c_void, key: *const c
     }
 }
 #[no_mangle]
-pub unsafe extern "C" fn sim_bpf_map_update_elem(map: *mut c_void, key: *const c_void, value: *const c_void, _flags: u64) -> i64 {
+pub unsafe extern "C" fn sim_bpf_map_update_elem(map: *mut c_void, key: *const c_void, value: *const c_void, flags: u64) -> i64 {
     yield_point();
     let (idx, def) = match map_of(map) {
         Some(x) => x,
@@ -103,7 +103,7 @@ pub unsafe extern "C" fn sim_bpf_map_update_elem(map: *mut c_void, key: *const c
     };
     let k = std::slice::from_raw_parts(key as *const u8, def.key_size);
     let v = std::slice::from_raw_parts(value as *const u8, def.value_size);
-    kernel::map_update(idx, k, v) as i64
+    kernel::map_update_flags(idx, k, v, flags) as i64
 }
 #[no_mangle]
 pub unsafe extern "C" fn sim_bpf_map_delete_elem(map: *mut c_void, key: *const c_void) -> i64 {
